@@ -12,6 +12,7 @@ SWITCHES = json.load(open(os.path.join(SPEC, "kvv_switches.json")))
 if os.environ.get("VERIF_KVV_SWITCHES"):
     # self-test of the binding against a private, patched copy of the repository (see VERIF_HARNESS_DIR)
     SWITCHES = json.loads(os.environ["VERIF_KVV_SWITCHES"])
+SWITCHES = {k: v for k, v in SWITCHES.items() if not k.startswith("_")}
 MAX_CLASSES = 8     # how many distinct violation classes one graph is searched for
 
 
@@ -81,21 +82,34 @@ def leg_a(kind, nkeys, maxver, maxw, workers=8, timeout=1500):
 # --------------------------------------------------------------------------------------------
 # leg B
 
+def alphabets(jobs):
+    """jobs: list of (kind, nkeys, maxver, dest): one TLC run writes all alphabet files"""
+    d = os.path.join(vlib.WORK, "kvv-alphabets")
+    os.makedirs(d, exist_ok=True)
+    jf = os.path.join(d, "jobs-%d.json" % os.getpid())
+    json.dump([{"kind": k, "nkeys": n, "maxver": v, "out": o} for k, n, v, o in jobs], open(jf, "w"))
+    vlib.tlc("KVVAlphabet", os.path.join(SPEC, "KVVAlphabet.cfg"), env={"KVV_JOBS": jf}, workers=1, timeout=300,
+             name="kvv-alphabet")
+    return [json.load(open(o)) for _, _, _, o in jobs]
+
+
 def alphabet(kind, nkeys, maxver, dest):
-    cfg = os.path.join(SPEC, "KVVAlphabet.cfg")
-    vlib.tlc("KVVAlphabet", cfg, env={"KVV_OUT": dest, "KVV_KIND": kind, "KVV_NKEYS": nkeys, "KVV_MAXVER": maxver},
-             workers=1, timeout=300, name="kvv-alphabet-" + kind)
-    return json.load(open(dest))
+    return alphabets([(kind, nkeys, maxver, dest)])[0]
 
 
-def extract(binpath, kind, nkeys, maxver, maxw=1, threads=8):
+def extract(binpath, kind, nkeys, maxver, maxw=1, threads=8, alpha_from=None, max_states=100000):
     """Leg B step 1: exhaustive exploration of the real stores' state graph."""
     d = vlib.workdir("kvv-b-%s-%d-%d" % (kind, nkeys, maxver))
     alpha = os.path.join(d, "alphabet.json")
-    a = alphabet(kind, nkeys, maxver, alpha)
+    if alpha_from:
+        os.replace(alpha_from, alpha)
+        a = json.load(open(alpha))
+    else:
+        a = alphabet(kind, nkeys, maxver, alpha)
     t0 = time.time()
     stats = vlib.run_bin(binpath, ["explore-" + kind, "--alphabet", alpha, "--maxver", maxver, "--maxw", maxw,
-                                   "--out", os.path.join(d, "ex"), "--threads", threads], timeout=3000)
+                                   "--out", os.path.join(d, "ex"), "--threads", threads,
+                                   "--max-states", max_states], timeout=3000)
     rows = []
     for fn in sorted(os.listdir(os.path.join(d, "ex"))):
         if fn.startswith("edges-"):
@@ -126,21 +140,26 @@ def impl_tlc(ex, workers=8, timeout=3000):
     ignore = os.path.join(d, "ignore.json")
     found = []
     runs = []
+    # small graphs: one worker = breadth-first order = a shortest violating history at once
+    small = ex["stats"]["edges"] <= 300000
+    reported = False
     while True:
         json.dump([c for c, _ in found], open(ignore, "w"))
         env = {"KVV_NODES": ex["nodes"], "KVV_ALPHABET": ex["alphabet"], "KVV_RESPS": ex["resps"],
-               "KVV_IGNORE": ignore, "KVV_REPORT": report}
+               "KVV_IGNORE": ignore, "KVV_REPORT": report, "KVV_DO_REPORT": "false" if reported else "true"}
         env.update(_env_switches())
-        r = vlib.tlc(module, cfg, env=env, workers=workers, timeout=timeout, name="impl-kvv-" + ex["kind"],
-                     heap="12g")
+        r = vlib.tlc(module, cfg, env=env, workers=1 if small else workers, timeout=timeout,
+                     name="impl-kvv-" + ex["kind"], heap="12g")
+        reported = True
         runs.append(r)
         if r["violated"] and len(found) < MAX_CLASSES:
-            # one worker = breadth-first order = a shortest violating history
-            r1 = vlib.tlc(module, cfg, env=env, workers=1, timeout=timeout, name="impl-kvv-" + ex["kind"],
-                          heap="12g")
-            runs.append(r1)
-            if r1["violated"]:
-                r = r1
+            if not small:
+                env["KVV_DO_REPORT"] = "false"
+                r1 = vlib.tlc(module, cfg, env=env, workers=1, timeout=timeout, name="impl-kvv-" + ex["kind"],
+                              heap="12g")
+                runs.append(r1)
+                if r1["violated"]:
+                    r = r1
             hist = trace_history(r["trace"])
             for c in final_classes(r["trace"]):
                 found.append((c, hist))
